@@ -348,7 +348,7 @@ func gen(g *hx.Gen) {
 	cov.Declare("pem.curve", "ecdsa224", "ecdsa256", "ecdsa384", "ecdsa521")
 	cov.Declare("marshal.kind", "rsa", "ed25519", "ecdsa256", "ecdsa384", "ecdsa521")
 	defer cov.Report(g.StatN)
-	n := g.Count(1500, 15000)
+	n := g.Count(1400, 15000)
 	r := g.R
 	nkg := 0
 	for i := 0; i < n; i++ {
@@ -385,13 +385,18 @@ func genParse(g *hx.Gen, r *hx.Rand) {
 	f.check2 = f.check1
 	mode, class, outerTag := "plain", "valid", "ok"
 	var pass []byte
-	if r.Chance(1, 3) { // encrypted
+	needEnc := ci == 21 || ci == 22 || ci == 23 || ci == 36 || ci == 37 || ci == 38 // classes about the passphrase / KDF
+	wrongPw := ci == 23 || ci == 36 || ci == 37 || ci == 38
+	if r.Chance(1, 3) || needEnc { // encrypted
 		mode = "pass"
 		f.cipher, f.kdf = hx.Pick(r, []string{"aes256-ctr", "aes256-ctr", "aes256-cbc"}), "bcrypt"
 		f.salt, f.rounds = r.Bytes(16), uint32(r.Range(1, 2))
 		pass = []byte(hx.Pick(r, []string{"pw", "correct horse", "x"}))
-		if r.Chance(1, 2) { // long passphrases: Blowfish key (72), SHA-512 block (128) and MD5/DES boundaries
+		if r.Chance(1, 2) || wrongPw { // long passphrases: Blowfish key (72), SHA-512 block (128) and MD5/DES boundaries
 			n := hx.Pick(r, []int{8, 16, 55, 56, 57, 63, 64, 65, 71, 72, 73, 127, 128, 129, 200, 257})
+			if wrongPw && r.Bool() {
+				n = hx.Pick(r, []int{73, 129, 200, 257}) // long enough for every shared-prefix variant
+			}
 			pass = make([]byte, n)
 			for i := range pass {
 				pass[i] = byte('a' + (i*7+n)%26)
@@ -682,8 +687,20 @@ func genMarshal(g *hx.Gen, r *hx.Rand, kg int) {
 	comment := hx.Pick(r, []string{"", "c", "user@host", "a longer comment 123", "1234567", "12345678"})
 	pass := ""
 	bs := 8
-	if r.Chance(1, 4) {
+	if r.Chance(1, 4) || (kg == 1 && r.Bool()) {
 		pass, bs = hx.Pick(r, []string{"pw", "another passphrase"}), 16
+		if r.Chance(2, 3) { // long passphrases: ssh-keygen (kgrun) is the independent bcrypt_pbkdf witness
+			n := hx.Pick(r, []int{56, 64, 72, 73, 128, 129, 200})
+			b := make([]byte, n)
+			for i := range b {
+				b[i] = byte('a' + (i*11+n)%26)
+			}
+			pass = string(b)
+			g.Stat(fmt.Sprintf("marshal.passlen.%d", n))
+			if kg == 1 {
+				g.Stat("marshal.long-passphrase-checked-by-ssh-keygen")
+			}
+		}
 	}
 	var fields string
 	switch kind {
